@@ -443,13 +443,18 @@ RULE = ("scripted AsyncRead (delivers the stream in the burst sizes of a schedul
         "kvarn_async::read::request and kvarn::application::Http1Body::read_to_bytes, plus kvarn_utils::parse::headers directly, in the debug and the "
         "overflow-unchecked build; compared with the extracted Coq model (correspondence: method, path, query, version, sorted header list, authority, "
         "early body bytes, body outcome, bytes taken from the connection, or the error class) and with the executable specification (oracle: for a "
-        "request printed from the grammar the fields and the body must be exactly the printed ones; no blank line within min(16 KiB, delivered bytes) "
-        "=> error; never a panic). Generators: grammar requests x every cut position (2 and 3 pieces, byte-by-byte) for short messages, random "
+        "request printed from the grammar the fields and the body must be exactly the printed ones (expect); for every other stream the fields, the "
+        "body outcome or the error class must be serve_spec of the delivered bytes, a function without schedule (theorem segmentation_blind); the "
+        "early body bytes must be the bytes of the stream right after the head; no blank line within min(16 KiB, delivered bytes) => error; never a "
+        "panic). Generators: the short messages also with bare-LF line ends in four mixes x every cut position; grammar requests x every cut position (2 and 3 pieces, byte-by-byte) for short messages, random "
         "multi-cut schedules, heads of size 511..16385 with bursts that land the buffer on the capacity thresholds, other head limits, "
         "content-length {0,1,31,32,33,100,5000} x trailing pipelined request x caller limits x early/late splits, truncated heads and bodies "
         "(EOF / error / stall), 100 hand-written malformed heads, random mutations, Host values and targets the http crate refuses, "
         "bounded-exhaustive header blocks over {a : SP CR LF}. distinct_nontrivial counts distinct (component, input, model outcome prefix) triples")
 ASSUMPTIONS = [
+    "read schedule = list of burst sizes; each read returns min(burst, window, bytes left) bytes; the exact theorems (parse_print*, "
+    "schedule_independent*, segmentation_blind, body_*) take schedules of non-empty bursts (sched_pos: a 0-byte read is how a peer says EOF, "
+    "modelled by the end mode), head_limit / stalled_head hold for every schedule",
     "BytesMut::reserve, when it reallocates, yields a capacity >= len + additional (theorems hold for every such growth function; the "
     "correspondence instantiates it with Vec's amortised doubling max(2*cap, len+additional, 8))",
     "http 1.5.0: Method::from_bytes, HeaderName::from_bytes, HeaderValue::from_maybe_shared/to_str, Uri::from_maybe_shared (scheme http/https, "
